@@ -5,6 +5,9 @@
 import RaftWal.Proofs.Codec
 import RaftWal.Generated.Codec
 import RaftWal.Generated.Consts
+import RaftWal.Generated.Pool
+import RaftWal.Proofs.PoolProps
+import RaftWal.Proofs.EndToEnd
 namespace RaftWal.C12
 
 /-- Go's `binary.Uvarint ∘ binary.PutUvarint = id` for every 64-bit value, with any trailing bytes. -/
@@ -38,6 +41,83 @@ theorem decoder_copies : Generated.decoderBytesCopies = true := by decide
 
 /-- reserved codec IDs: the built-in codec's ID is below the first external ID -/
 theorem builtin_codec_reserved : Generated.wal_CodecBinaryV1 < Generated.wal_FirstExternalCodecID := by decide
+
+/-! ## "StoreLogs followed by GetLog returns an equal log": codec and segment file composed -/
+
+/-- **stored_log_reads_back**: logs are encoded (`encodeBatches`), their encodings appended batch by batch by the
+    byte-level writer, index `base + k` is read back by the tail reader with any buffer size and decoded with the decoder as
+    the source configures it: the result is exactly the k-th stored log, every field. (`LogsWF` only states the ranges of
+    the Go field types.) -/
+theorem stored_log_reads_back (info : SegInfo) (ls : List (List Log)) (bs : List (List Bytes))
+    (hls : LogsWF ls) (henc : encodeBatches ls = some bs) (hwf : RunWF info bs) (hmin : info.min = info.base)
+    (w : Writer) (file : Bytes)
+    (hrun : (freshSegment info).1.appendAll (freshSegment info).2 info.base bs = some (w, file))
+    (k : Nat) (hk : k < ls.flatten.length) (bufSize : Nat) (hbuf : 8 ≤ bufSize) :
+    (w.getLog file (info.base + k) bufSize).toOption.bind (fun p => (decode Generated.decodeCfg p).toOption)
+      = some (ls.flatten[k]'hk) :=
+  RaftWal.stored_log_reads_back info ls bs hls henc hwf hmin w file hrun k hk bufSize hbuf
+
+/-- the same through the sealed reader (the on-disk index block) once the segment is sealed -/
+theorem stored_log_reads_back_sealed (info : SegInfo) (ls : List (List Log)) (bs : List (List Bytes))
+    (hls : LogsWF ls) (henc : encodeBatches ls = some bs) (hwf : RunWF info bs) (hmin : info.min = info.base)
+    (w : Writer) (file : Bytes)
+    (hrun : (freshSegment info).1.appendAll (freshSegment info).2 info.base bs = some (w, file))
+    (hsealed : w.indexStart > 0) (k : Nat) (hk : k < ls.flatten.length) (bufSize : Nat) (hbuf : 8 ≤ bufSize) :
+    openSealed (sealInfo info w) file = .ok () ∧
+    (sealedGetLog (sealInfo info w) file (info.base + k) bufSize).toOption.bind
+        (fun p => (decode Generated.decodeCfg p).toOption) = some (ls.flatten[k]'hk) :=
+  RaftWal.stored_log_reads_back_sealed info ls bs hls henc hwf hmin w file hrun hsealed k hk bufSize hbuf
+
+/-- and after any chain of appends, torn appends, recoveries and restarts (Props/C02 `chain_atomic`): every entry the
+    file holds decodes to the log that was stored -/
+theorem stored_log_reads_back_any_chain (info : SegInfo) (evs : List ChainEv) (w : Writer) (file : Bytes)
+    (bs : List (List Bytes)) (hres : ChainResult info evs w file bs)
+    (ls : List (List Log)) (hls : LogsWF ls) (henc : encodeBatches ls = some bs) (hmin : info.min = info.base)
+    (k : Nat) (hk : k < ls.flatten.length) (bufSize : Nat) (hbuf : 8 ≤ bufSize) :
+    (w.getLog file (info.base + k) bufSize).toOption.bind (fun p => (decode Generated.decodeCfg p).toOption)
+      = some (ls.flatten[k]'hk) :=
+  RaftWal.stored_log_reads_back_any_chain info evs w file bs hres ls hls henc hmin k hk bufSize hbuf
+
+/-! ## "A log returned by GetLog stays unchanged when later reads reuse internal buffers"
+
+    `Model/Pool.lean`: the heap of read buffers, the Filer's `sync.Pool` (any previously Put buffer or a new one — the
+    schedule decides), and any number of reader goroutines each walking through `readFrame` / `WAL.GetLog` one shared
+    access per step (small path, large path with its private buffer, error returns). `Generated.poolCfg` holds the
+    code's guards as read from the call sites on every run. The theorems quantify over every schedule. -/
+
+/-- every read that completes hands its caller the bytes of the frame it asked for … -/
+theorem getLog_returns_requested_entry (n : Nat) (sched : List Pool.Step) :
+    ∀ kr ∈ (Pool.run Generated.poolCfg (Pool.init n) sched).returned,
+      Pool.observe (Pool.run Generated.poolCfg (Pool.init n) sched) kr.2 = some kr.1 :=
+  (Pool.read_returns_requested_frame_of_guards Generated.poolCfg (by decide) (by decide) (by decide) n sched).2
+
+/-- … and whatever readers do afterwards — reuse of the same pooled buffers included — a returned log never changes -/
+theorem returned_log_never_changes (n : Nat) (sched more : List Pool.Step) :
+    ∀ kr ∈ (Pool.run Generated.poolCfg (Pool.init n) sched).returned,
+      kr ∈ (Pool.run Generated.poolCfg (Pool.init n) (sched ++ more)).returned ∧
+      Pool.observe (Pool.run Generated.poolCfg (Pool.init n) (sched ++ more)) kr.2 =
+        Pool.observe (Pool.run Generated.poolCfg (Pool.init n) sched) kr.2 :=
+  Pool.result_stable_of_guards Generated.poolCfg (by decide) (by decide) (by decide) n sched more
+
+/-- a pooled buffer is never in the pool while a reader holds it, never held by two readers, never in the pool twice -/
+theorem pooled_buffers_exclusive (n : Nat) (sched : List Pool.Step) :
+    let s := Pool.run Generated.poolCfg (Pool.init n) sched
+    s.pool.Nodup ∧ (∀ t b, b ∈ s.ownedBy t → b ∉ s.pool) ∧ (∀ t u b, b ∈ s.ownedBy t → b ∈ s.ownedBy u → t = u) :=
+  Pool.pool_exclusive Generated.poolCfg (by decide) n sched
+
+/-- each guard is needed: without the decoder's copy, with the buffer handed back before Decode, or with a second Close
+    of the same buffer, there is a schedule on which a reader ends up with another entry's bytes (concrete witnesses) -/
+theorem buffer_guards_needed :
+    ¬ Pool.Correct { Pool.PoolCfg.code with decoderCopies := false } ∧
+    ¬ Pool.Correct { Pool.PoolCfg.code with closeAfterDecode := false } ∧
+    ¬ Pool.Correct { Pool.PoolCfg.code with closeOnce := false } :=
+  ⟨Pool.needs_decoderCopies, Pool.needs_closeAfterDecode, Pool.needs_closeOnce⟩
+
+/-- whether the large path's exact-size buffer is private or pooled, and when the first buffer is handed back, does not
+    matter for what callers see -/
+theorem large_path_choices_irrelevant (priv first : Bool) :
+    Pool.Correct { Pool.PoolCfg.code with largePathPrivate := priv, largePathClosesFirst := first } :=
+  Pool.correct_any_largePath priv first
 
 -- non-vacuity: a concrete non-trivial log satisfies the hypotheses of `decode_encode`
 example : ∃ l t bs, Log.wf l ∧ l.time = some t ∧ encode l = some bs ∧ l.data ≠ [] ∧ l.index ≥ 2^63 :=
